@@ -121,7 +121,9 @@ def same(a, b, tol=0.0):
         if a == b:
             return True
         if tol and not (math.isinf(a) or math.isinf(b)) and a == a and b == b:
-            return abs(a - b) <= tol * max(abs(a), abs(b))
+            # one rounding step is `tol`-small only in the normal range: a subnormal result has an absolute
+            # ulp of 2**-1074 whatever its size (x/10 vs x*(1/10) at 6.6e-314 differ by 3 such ulps = 4e-11 relative)
+            return abs(a - b) <= max(tol * max(abs(a), abs(b)), 4 * 5e-324)
     except Exception:
         return False
     return False
@@ -193,7 +195,7 @@ def same(a, b, tol=0.0):
     a = a.item() if hasattr(a, "item") else a; b = b.item() if hasattr(b, "item") else b
     if a != a and b != b: return True
     if a == b: return True
-    if tol and a == a and b == b and not (math.isinf(a) or math.isinf(b)): return abs(a-b) <= tol*max(abs(a),abs(b))
+    if tol and a == a and b == b and not (math.isinf(a) or math.isinf(b)): return abs(a-b) <= max(tol*max(abs(a),abs(b)), 4*5e-324)   # 4 subnormal ulps
     return False
 def close(r, e, tol=1e-12):
     r = r.item() if hasattr(r, "item") else r
@@ -2460,6 +2462,76 @@ def history_stream(ctx):
                      expected=f["expected"], got=f["got"], python=history_python(seq, f))
 
 
+
+# ---------------------------------------------------------------------------------------
+# transform tables (Model/C15Transform.lean, Props/C15/Transform.lean)
+# ---------------------------------------------------------------------------------------
+
+def transform_stream(ctx):
+    """ties Model/C15Transform.lean to funsor/ops/builtin.py: (a) the `set_inv` table of the model is the
+    live one (every TransformOp of funsor.ops, its `.inv`); (b) the transcribed bodies and
+    log_abs_det_jacobian formulas, evaluated by the Lean driver over Float, agree with the real ops on
+    numpy float64 scalars inside each transform's domain (relative 1e-9: libm vs numpy ulps, log1p)."""
+    import struct
+    from funsor.ops.builtin import TransformOp
+    names = ["exp", "log", "tanh", "atanh", "sigmoid"]
+    live_ops = sorted(k for k in dir(ops) if isinstance(getattr(ops, k), TransformOp) and k != "wrapped_transform")
+    live_inv = sorted((k, getattr(getattr(ops, k).inv, "__name__", "?")) for k in live_ops)
+    ans = ctx.driver.ask(["C15 xforminv"])
+    got = parse_sx(ans[0][3:]) if ans and ans[0].startswith("ok ") else None
+    got = sorted((str(a), str(b)) for a, b in got) if isinstance(got, list) else None
+    ctx.count("transform:table-echo")
+    if got != live_inv:
+        ctx.fail("correspondence", "C15.transform-inv-table", witness=dict(lean=got, live=live_inv))
+        return
+
+    def bits(v):
+        return struct.unpack("<Q", struct.pack("<d", float(v)))[0]
+
+    def unbits(n):
+        return struct.unpack("<d", struct.pack("<Q", int(n)))[0]
+
+    rng = ctx.rng
+    n = 400 if ctx.tier != "quick" else 60
+    dom = {"exp": lambda: rng.uniform(-30, 30), "log": lambda: math.exp(rng.uniform(-30, 30)),
+           "tanh": lambda: rng.uniform(-8, 8), "atanh": lambda: rng.uniform(-0.999, 0.999),
+           "sigmoid": lambda: rng.uniform(-30, 30)}
+    reqs, meta = [], []
+    for nm in names:
+        o = getattr(ops, nm)
+        for _ in range(n):
+            x = np.float64(dom[nm]())
+            y = call(o, x)
+            if is_exc(y):
+                continue
+            l = call(o.log_abs_det_jacobian, x, y)
+            xi = call(o.inv, y)
+            reqs.append(f"C15 xform body {nm} {bits(x)} 0")
+            meta.append((nm, "body", x, y, y))
+            if not is_exc(l):
+                reqs.append(f"C15 xform ladj {nm} {bits(x)} {bits(y)}")
+                meta.append((nm, "ladj", x, y, l))
+            if nm == "sigmoid" and not is_exc(xi):
+                reqs.append(f"C15 xform body sigmoid_inv {bits(y)} 0")
+                meta.append((nm, "inv", x, y, xi))
+    ans = ctx.driver.ask(reqs)
+    for (nm, kind, x, y, real), an in zip(meta, ans):
+        if not an.startswith("ok ") or an == "ok none":
+            ctx.infra_errors.append(f"driver: {an} for xform {kind} {nm}")
+            return
+        lean = unbits(an[3:])
+        real = float(real)
+        ctx.count(f"transform:{kind}")
+        ctx.case(sample=dict(stream="transform", op=nm, kind=kind, x=jv(x)), nontrivial_key=("transform", nm, kind, bits(x)))
+        tol = 1e-9 * max(1.0, abs(real), abs(lean))
+        if kind == "inv":
+            # 1 - sigmoid(x) cancels for large x: compare through the conditioning of log1p(-y)
+            tol = max(tol, 1e-15 / max(1e-300, min(float(y), 1.0 - float(y))) if 0.0 < float(y) < 1.0 else INF)
+        if not (abs(lean - real) <= tol):
+            ctx.fail("correspondence", f"C15.transform-{kind}:{nm}",
+                     witness=dict(op=nm, kind=kind, x=jv(x), y=jv(y), lean=jv(lean), real=jv(real)))
+            return
+
 # ---------------------------------------------------------------------------------------
 # correspond / search
 # ---------------------------------------------------------------------------------------
@@ -2501,6 +2573,7 @@ def correspond(ctx):
     special_grid(ctx)
     primitive_grid(ctx)
     magnitude_grid(ctx)
+    transform_stream(ctx)
     big = ctx.tier != "quick"
     logsumexp_stream(ctx, 12000 if big else 300)
     einsum_stream(ctx, 12000 if big else 400)
